@@ -64,6 +64,8 @@ class OldView:
 def mark_old(v, snap):
     if isinstance(v, Ref) and v.old is None:
         return Ref(v.oid, snap)
+    if isinstance(v, ElemRef) and v.mref.old is None:
+        return ElemRef(Ref(v.mref.oid, snap), v.key)  # the record as it was in the snapshot of its map
     if isinstance(v, tuple):
         return tuple(mark_old(x, snap) for x in v)
     return v
@@ -82,6 +84,8 @@ def kind_of_T(t):
         return ('tup', tuple(kind_of_T(x) for x in t.ts))
     if isinstance(t, C.ListOf):
         return ('seq', kind_of_T(t.t))
+    if isinstance(t, C.Rec):
+        return ('rec', t.elem)
     raise Unsupported(f'type {t!r} has no element kind')
 
 
@@ -113,7 +117,7 @@ class LoopSpec:
         self.key = key
         # optional per-loop frame: `loop_modifies={ordinal: [...]}` (a subset of `modifies`) is what this
         # loop may change; only that is havocked at the loop head, and the rest of the heap is checked
-        # unchanged over one iteration (obligations `loop<k>-frame`)
+        # unchanged over one iteration (obligations `loop-frame`)
         self.mods = ((getattr(top, 'extra', None) or {}).get('loop_modifies') or {}).get(key)
 
     def name(self, kind):
@@ -322,6 +326,7 @@ class Config:
         if isinstance(t, C.IntRange):
             s = path.fresh_sym('int', hint)
             path.add_def(z3.And(s.t >= t.lo, s.t <= t.hi))
+            M.mark_range(path, s.t, t.lo, t.hi)
             return s
         if t is C.Bool:
             return path.fresh_sym('bool', hint)
@@ -375,15 +380,25 @@ class Config:
             return path.fresh_sym(('opq', t.tag), hint)
         if isinstance(t, C.ExtT):
             return t.fresh(self, path, hint)
+        if isinstance(t, C.Rec):
+            # an arbitrary existing record of the class's record heap (ghost MapOf): symbolic key in the domain
+            self.ensure_ghost(path, self.top)
+            mref = M.rec_heap(path, t.elem)
+            k = path.fresh_sym('int', hint)
+            path.add_def(z3.Select(path.obj(mref).dom, k.t))
+            return ElemRef(mref, k)
         if isinstance(t, C.Callback):
             eff = self.spec_func(t.effect) if t.effect is not None else None
             return CallbackVal(t.name, eff, t.returns, t.raises)
         if isinstance(t, C.ListOf):
-            return path.alloc(LObj(None, path.fresh_sym(('seq', kind_of_T(t.t)), hint), t.flavor))
+            sq = path.fresh_sym(('seq', kind_of_T(t.t)), hint)
+            if t.maxlen is not None:
+                path.add_def(z3.Length(sq.t) <= t.maxlen)  # type invariant of a bounded deque
+            return path.alloc(LObj(None, sq, t.flavor, t.maxlen))
         if isinstance(t, C.TupleOf):
             return tuple(self.fresh(path, x, f'{hint}.{i}') for i, x in enumerate(t.ts))
         if isinstance(t, C.ConcList):
-            return path.alloc(LObj([self.fresh(path, t.t, f'{hint}[{i}]') for i in range(t.n)], flavor=t.flavor))
+            return path.alloc(LObj([self.fresh(path, t.t, f'{hint}[{i}]') for i in range(t.n)], flavor=t.flavor, maxlen=t.maxlen))
         if isinstance(t, C.EmptyDict):
             return path.alloc(DObj({}, path.import_native(t.default_factory) if t.default_factory else None))
         if isinstance(t, C.MapOf):
@@ -399,6 +414,11 @@ class Config:
                     evcols.append(fname)
                     ft = C.Bool
                     default = False if default is None else default
+                if isinstance(ft, C.Opt):
+                    # optional field: companion Bool column `name?` (True = the field is None)
+                    narr = z3.Const(path.fresh_name(f'{hint}.{fname}?'), z3.ArraySort(z3.IntSort(), z3.BoolSort()))
+                    cols[fname + '?'] = (narr, 'bool', True)
+                    ft = ft.t
                 k = kind_of_T(ft)
                 arr = z3.Const(path.fresh_name(f'{hint}.{fname}'), z3.ArraySort(z3.IntSort(), sort_of(k)))
                 cols[fname] = (arr, k, default)
@@ -406,6 +426,10 @@ class Config:
             return path.alloc(MObj(dom, cols, cls, mdl, t.default_factory, evcols))
         if isinstance(t, C.Event):
             return path.alloc(Obj(asyncio.Event, {'_flag': path.fresh_sym('bool', hint + '._flag')}))
+        if isinstance(t, C.ExtT):
+            return t.fresh(self, path, hint)
+        if hasattr(t, 'fresh'):
+            return t.fresh(self, path, hint)  # extension point: type descriptors defined outside the core (pyvc/ext_*.py)
         raise Unsupported(f'fresh value of type {t!r}')
 
     def havoc_like(self, path, v, hint):
@@ -519,6 +543,8 @@ class Config:
                     elif isinstance(ft, C.ListOf) and isinstance(tgt, LObj):
                         tgt.sym = path.fresh_sym(('seq', kind_of_T(ft.t)), n)
                         tgt.items = None
+                        if tgt.maxlen is not None:
+                            path.add_def(z3.Length(tgt.sym.t) <= tgt.maxlen)
                     elif isinstance(ft, C.MapOf) and isinstance(tgt, MObj):
                         self.havoc_map(path, cur, n)
                     elif isinstance(ft, C.ExtT) and isinstance(tgt, ExtObj):
@@ -536,10 +562,23 @@ class Config:
             elif isinstance(ho, LObj):
                 if ho.sym is not None:
                     ho.sym = path.fresh_sym(ho.sym.k, 'lst')
+                    if ho.maxlen is not None:
+                        path.add_def(z3.Length(ho.sym.t) <= ho.maxlen)
                 else:
                     raise Unsupported('havoc of a concrete-spine list (declare ListOf in the class model)')
             elif isinstance(ho, MObj):
-                self.havoc_map(path, Ref(oid), 'map')
+                if fld == '*':
+                    self.havoc_map(path, Ref(oid), 'map')
+                elif fld == '__dom__':
+                    ho.dom = z3.Const(path.fresh_name('map.dom'), ho.dom.sort())
+                else:
+                    # a single column of the records (and its is-None companion column)
+                    for n in (fld, fld + '?'):
+                        if n in ho.cols:
+                            arr, k, d = ho.cols[n]
+                            ho.cols[n] = (z3.Const(path.fresh_name(f'map.{n}'), arr.sort()), k, d)
+                        elif n == fld:
+                            raise Unsupported(f'modifies: no column {fld} in the symbolic map')
             elif isinstance(ho, ExtObj):
                 ho.ext_havoc(path, Ref(oid), 'ext')
             elif isinstance(ho, DObj):
@@ -612,8 +651,15 @@ class Config:
             path.prog_temps = saved
             path.prog_vals = saved_vals
             if temps:
-                ids = {id(t) for t in temps}
-                path.pc = [p for p in path.pc if id(p) not in ids]
+                # remove exactly the entries that were appended (one occurrence per temp, from the end): a
+                # clause may evaluate to the very term object a branch condition already put on the pc
+                pc = list(path.pc)
+                for t in reversed(temps):
+                    for idx in range(len(pc) - 1, -1, -1):
+                        if pc[idx] is t:
+                            del pc[idx]
+                            break
+                path.pc = pc
         if dead:
             path.die_after = len(out)
         return out
@@ -651,6 +697,16 @@ class Config:
         c2 = self.contract_for(path, key, f)
         if c2 is not None:
             return self.apply_contract(path, c2, f, args, kwargs)
+        # contract kwarg `stubs={callable: Callback}` also replaces a repo function outside the kernel
+        # (e.g. the crypto toolbox) by a recorded callback, like it does for library functions
+        stubs = getattr(self.top, 'extra', {}).get('stubs')
+        if stubs and f.native is not None and f.closure is None:
+            try:
+                cb = stubs.get(f.native)
+            except TypeError:
+                cb = None
+            if cb is not None:
+                return path.call(self.fresh(path, cb, cb.name), args, kwargs, node)
         if self.may_inline(key, f):
             path.inlined.add(key)
             return path.run_func(f, args, kwargs)
@@ -736,6 +792,10 @@ class Config:
             return res
         exc_cls = outcomes[k]
         exc = path.new_exception(exc_cls)
+        # contract kwarg `exc_fields={ExcClass: {name: T}}`: attributes of the raised exception that the
+        # `raises` clause talks about (fresh values of the declared types, constrained by the clause)
+        for fname, ft in ((c2.extra.get('exc_fields') or {}).get(exc_cls) or {}).items():
+            path.wobj(exc).fields[fname] = self.fresh(path, ft, f'exc.{fname}')
         env2['exc'] = exc
         post = c2.raises[exc_cls]
         if post is not None:
@@ -806,9 +866,11 @@ class Config:
                 if same is not True:
                     path.oblige(self.obl_name(path, 'frame', type(o0).__name__), 'frame', same)
             elif isinstance(o0, MObj):
-                if not o0.dom.eq(o1.dom):
+                if not o0.dom.eq(o1.dom) and (oid, '__dom__') not in targets:
                     path.oblige(self.obl_name(path, 'frame', 'map.dom'), 'frame', mk_bool(o0.dom == o1.dom))
                 for n in o0.cols:
+                    if (oid, n) in targets or (n.endswith('?') and (oid, n[:-1]) in targets):
+                        continue
                     if not o0.cols[n][0].eq(o1.cols[n][0]):
                         path.oblige(self.obl_name(path, 'frame', f'map.{n}'), 'frame', mk_bool(o0.cols[n][0] == o1.cols[n][0]))
 
@@ -937,7 +999,11 @@ def verify(registry, top, tier='quick', max_paths=4000, collect_pre=True):
             outcome = 'unsupported'
         except PyExc as e:
             # exception escaping from clause evaluation / pre-state construction
-            res.undecided.append(f'{path.cur_loc}: python exception {e.value!r} outside the function under contract')
+            try:
+                _desc = f'{path.exc_class_of(e.value).__name__}{getattr(path.obj(e.value), "fields", {}).get("args", "")!r}'
+            except Exception:
+                _desc = repr(e.value)
+            res.undecided.append(f'{path.cur_loc}: python exception {_desc} outside the function under contract')
             outcome = 'unsupported'
         except RecursionError:
             res.undecided.append('python recursion limit in the engine')
@@ -961,6 +1027,10 @@ def verify(registry, top, tier='quick', max_paths=4000, collect_pre=True):
                 ob.info['headstate'] = getattr(path, 'headstate', None)
             ob.info['decisions'] = tuple(path.decisions)
             res.obligations.append(ob)
+    if res.paths == 0 and not res.undecided:
+        # every path died as infeasible: `requires` is unsatisfiable or an applied callee contract has an unsatisfiable
+        # postcondition -- nothing was verified, which must never read as a pass
+        res.undecided.append('no feasible path (vacuous): requires, or the postcondition of an applied callee contract, is unsatisfiable')
     res.feas_checks = explorer.feas_checks
     return res
 
